@@ -15,28 +15,35 @@ Witnesses of its negation (each replayed on the implementation and recorded as a
                                              (video: the local list always)
   `answer_clears_mids_without_bundle`      — mids clause, ≥ 2 sections and no BUNDLE group
   `legacy_sip_answer_drops_offered_mids`   — mids clause, LegacySip compatibility mode
-  `midless_offer_leaks_extmap_across_sections` — extension-id clause: the remote section is looked up
-                                             by `mid == ""`, i.e. the FIRST mid-less section
   `image_answer_format_not_offered`        — `m=image … udptl t38` answered with format `98`
-  `sticky_role_answers_offerers_own_role`  — setup clause on a re-offer that changes the DTLS role
-  `session_level_setup_is_not_read`        — setup clause, `a=setup` at session level only
+  `sticky_role_answers_offerers_own_role`  — setup clause once the DTLS transport exists (role input kept)
   `sections_with_differing_setup_get_one_role` — setup clause, sections offering different roles
   `partial_bundle_group_answered_in_full`  — BUNDLE clause: a section outside the offered group is bundled
-  (`offered_payload_type_rebound` — not a clause of the property text: an offered NUMBER bound to another codec)
-What is proved of `answer` is stated clause by clause: for ALL inputs `answer_count`, `answer_kinds_ok`
-(full: every offer, every state — `kind_synced`), `answer_setup_ok(_desc)`, `answer_setup_complements` (about
-`RtcModel.Jsep.roleOfSetup`, the role derivation the C09 driver compares with the code),
-`answer_direction_ok`, `answer_mux_ok(_desc)`, `answer_bundle_ok`, `answer_extmap_ok`,
-`answer_extmap_ids_offered`, `answer_rtx_ok`, `answer_extmap_nodup`; RELATIVE TO THE ANSWERED SECTION for
-offers with pairwise different mids `answer_rtx_ok_distinct`, `answer_ext_ok_distinct` (ids offered AND no
-duplicates); the audio intersection path `answer_audio_reinvite_pts_offered` (since the round-2 fix taken on
-first negotiations too); under named, decidable, satisfiable hypotheses `answer_direction_ok_desc`
-(`DirSynced`), `answer_aligned_partial`, `answer_valid_core_partial`, and `answer_valid_partial`:
-`validAnswer offer a` in full, where the RTX / extension / setup clauses are derived and the only
-hypothesis restating a clause is `PtsWithinOffer` — what the code does NOT ensure (witnesses above).
+  `session_level_direction_is_not_read`    — direction clause, direction given at session level only
+  (`offered_payload_type_rebound` — NOT a clause: an offered NUMBER bound to another codec; a counter)
+Since round 3 an answer section is built from the offered section AT THE SAME INDEX (`answerOrder` pairs each
+matched transceiver with that section), so every per-section theorem is about the section actually
+answered, for every offer with or without mids:
+  `answer_count`, `answer_kinds_ok`, `answer_mux_ok(_desc)`, `answer_setup_ok(_desc)`, `answer_bundle_ok`  — all inputs;
+  `answer_extmap_ok`, `answer_extmap_ids_offered` (ids AND (id, URI) bindings), `answer_extmap_nodup`,
+  `answer_ext_ok` (the extension clause, under `ExtWF` of the offered section), `answer_rtx_ok`,
+  `answer_rtx_ok_section` (the RTX clause on video sections), `answer_audio_pts_offered`,
+  `answer_audio_pts_ok` (the payload-type clause on audio sections that share a codec with the local
+  configuration, first and subsequent negotiations), `answer_section_clauses` (ext + RTX along the whole
+  answer) — all offers;
+  `answer_direction_ok` (relative to the transceiver), `answer_direction_ok_desc` under the STATE hypothesis
+  `DirSynced`; `answer_setup_complements` about `RtcModel.Jsep.roleOfSetup`;
+  `answer_aligned_partial` (mids present and not cleared), `answer_valid_core`, and `answer_valid_partial`:
+  `validAnswer offer a` in full under named hypotheses; the only one restating part of a clause is
+  `PtsWithinOffer` (video / image / audio without a common codec) — what the code does NOT ensure.
+  `RoleDerived` and `DirSynced` are hypotheses about the connection state `set_remote_description` left
+  behind; they are discharged for a first offer in the C09 model only informally (different record types).
+Theorems marked "(lemma)" in their doc comment are helpers, not obligations of the property.
 
-SDP text: see the block comment before `round_trip_partial` — the literal round-trip clause is FALSE
-(`round_trip_reorders_attributes`, `parsed_description_need_not_round_trip`); proved: `round_trip_partial`,
+SDP text: see the block comment before `round_trip_partial` — the literal round-trip clause is FALSE for
+descriptions that are not in the serialiser's attribute order (`round_trip_reorders_attributes`: foreign
+offers; since the round-3 fix NOT the descriptions the stack produces) and for parser output with a `:` in
+an unknown line type (`parsed_description_need_not_round_trip`); proved: `round_trip_partial`,
 `parse_print` (= `norm d`), `norm_only_partitions`, `second_trip_exact`, `parse_print_structural`,
 `parse_text_print` (text level), and the character-level `attr_text_roundtrip`, `decimal_roundtrip`,
 `origin_roundtrip`, `timing_roundtrip`, `mline_roundtrip`.
@@ -59,7 +66,7 @@ theorem const_defaults : RtcModel.Generated.defAudioPt = 111 ∧ RtcModel.Genera
 
 /-! ### structure of the attributes of an answer section -/
 
-/-- every attribute of an answer section is a codec attribute, an echoed header extension or the
+/-- (lemma) every attribute of an answer section is a codec attribute, an echoed header extension or the
 DTLS setup -/
 theorem capabilities_attrs (c : Cfg) (k : Kind) (o : Media) (role : Option Bool) :
     ∀ a ∈ (capabilities c k o role).2,
@@ -77,6 +84,7 @@ theorem capabilities_attrs (c : Cfg) (k : Kind) (o : Media) (role : Option Bool)
     · exact Or.inl (codecPart_codec c k o a h)
   · exact Or.inr (Or.inl h)
 
+/-- (lemma) -/
 theorem extmapAttrs_key (c : Cfg) (k : Kind) (o : Media) :
     ∀ a ∈ extmapAttrs c k o, a.key = "extmap".toList := by
   intro a ha
@@ -360,8 +368,9 @@ def pcmuActive : Media :=
     dir := .sendrecv, connection := none,
     attrs := [flag "rtcp-mux", attr "rtpmap" "0 PCMU/8000".toList, attr "setup" "active".toList] }
 
-/-- **Witness (subsequent negotiations)** — the role is cached by the first negotiation; a re-offer in
-which the offerer takes the role the answerer holds is answered with that same role. -/
+/-- **Witness (subsequent negotiations)** — once the DTLS transport exists the role is fixed (round-3 fix:
+until then it follows the latest description); a re-offer in which the offerer takes the role the
+answerer holds is then answered with that same role. The role is an INPUT of this model (`some true`). -/
 theorem sticky_role_answers_offerers_own_role :
     setupCompatible (some "active".toList) (setupValue (some true)) = false ∧
     setupCompatible (some "passive".toList) (setupValue (some false)) = false ∧
@@ -369,8 +378,8 @@ theorem sticky_role_answers_offerers_own_role :
           zipAll secSetupOk [pcmuActive] a.sections = false) := by
   refine ⟨by decide, by decide, _, rfl, by decide⟩
 
-/-- **first_answer_ignores_offer_codecs** — a PCMU-only offer is answered with `111 opus` on a first
-negotiation: the answer lists the locally configured codecs whatever the offer contained. -/
+/-- **first_answer_ignores_offer_codecs** — offer and local configuration share no codec (PCMU-only offer,
+default opus configuration): the section is not rejected, the answer lists the local `111 opus`. -/
 theorem first_answer_ignores_offer_codecs :
     ∃ a, answer cfgDefault [trx .audio "0"] 1 (some false) (some (mkOffer [] [pcmuOnly "0"])) = .ok a ∧
       (a.sections.map (·.formats)) = [["111".toList]] ∧
@@ -680,9 +689,9 @@ def NonVideoNoApt (c : Cfg) (offer : Desc) : Prop :=
 
 /-- a STATE hypothesis: the DTLS role the connection holds was derived (`RtcModel.Jsep.roleOfSetup`, the
 function the C09 driver compares with `set_remote_description`) from the `a=setup` value `v` that every
-section of THIS offer carries, at media or session level. Fails for re-offers that change the role, for
-offers whose sections differ, and for session-level-only `a=setup` (the derivation reads media-level
-attributes): witnesses `sticky_role_answers_offerers_own_role`, `session_level_setup_is_not_read`. There is
+section of THIS offer carries, at media or session level. Fails for re-offers that change the role after
+the DTLS transport exists and for offers whose sections differ: witnesses
+`sticky_role_answers_offerers_own_role`, `sections_with_differing_setup_get_one_role`. There is
 no composed theorem with the C09 model's `deriveRole` (different record types). -/
 def RoleDerived (c : Cfg) (role : Option Bool) (offer : Desc) : Prop :=
   c.mode = .webrtc → ∃ v, role = some (RtcModel.Jsep.roleOfSetup v) ∧
@@ -933,15 +942,16 @@ theorem partial_bundle_group_answered_in_full :
   have := h "BUNDLE 0".toList (by decide) vp8RtxSec (by simp [mkOffer])
   revert this; decide
 
-/-- **session_level_setup_is_not_read** — witness for the setup clause: an offer whose only `a=setup:active`
-is at session level. The role derivation reads media-level attributes only, finds none, the role stays
-unset and the answer says `a=setup:active` too — both ends active. -/
-theorem session_level_setup_is_not_read :
+/-- since the round-3 `fix:` a session-level-only `a=setup:active` yields the role `roleOfSetup "active"`
+(server) — `RtcModel.Jsep.deriveRole` reads the session level when no section carries `a=setup` — and the
+answer says `passive` (round-2 witness `session_level_setup_is_not_read`: the role stayed unset, the answer
+said `active`) -/
+example :
     let sec : Media := { pcmuOnly "0" with attrs := [flag "rtcp-mux", attr "rtpmap" "0 PCMU/8000".toList] }
     let offer := mkOffer [attr "setup" "active".toList] [sec]
-    ∃ a, answer cfgDefault [trx .audio "0"] 1 none (some offer) = .ok a ∧
-      zipAll (secSetupOkS offer.session.attrs) offer.media a.sections = false ∧ validAnswer offer a = false := by
-  refine ⟨_, rfl, by decide, by decide⟩
+    ∃ a, answer cfgDefault [trx .audio "0"] 1 (some (RtcModel.Jsep.roleOfSetup "active".toList)) (some offer) = .ok a ∧
+      zipAll (secSetupOkS offer.session.attrs) offer.media a.sections = true := by
+  refine ⟨_, rfl, by decide⟩
 
 /-- **sections_with_differing_setup_get_one_role** — witness: sections offering `passive` and `active`; one
 DTLS role (from the FIRST `a=setup`) answers both, so the second section is answered `active` to `active`. -/
@@ -1094,5 +1104,18 @@ is its counterexample. Known finding `rt:differs:session:malformed-colon-prefix`
 theorem parsed_description_need_not_round_trip :
     ∃ d d2, parseText colonPrefixText = .ok d ∧ ¬ WF d ∧ parseText (printText (print d)) = .ok d2 ∧ d2 ≠ d := by
   refine ⟨_, _, rfl, by decide, rfl, by decide⟩
+
+/-- an offer text whose only direction attribute is at session level -/
+def sessionInactiveText : Str := "v=0\r\no=- 1 2 IN IP4 h\r\ns=-\r\nt=0 0\r\na=inactive\r\nm=audio 9 RTP/AVP 0\r\n".toList
+
+/-- **session_level_direction_is_not_read** — witness (direction clause, RFC 8866 §6.7: a session-level
+`a=inactive` applies to every section without a direction of its own): the parser keeps the attribute in
+the session part and gives the section the default `sendrecv`; nothing later reads the session-level
+attribute, the transceiver is set to `sendrecv` and the section is answered `sendrecv`. Replayed on the
+implementation (known finding `ans:direction:session-level-direction-not-read:*`). -/
+theorem session_level_direction_is_not_read :
+    ∃ d, parseText sessionInactiveText = .ok d ∧
+      d.session.attrs = [flag "inactive"] ∧ d.media.map (·.dir) = [Dir.sendrecv] := by
+  refine ⟨_, rfl, by decide, by decide⟩
 
 end RtcModel.Theorems.C08
